@@ -57,13 +57,21 @@ func init() {
 				}
 				return idpo(es)
 			}
+			rngNil := func(incl bool) string {
+				es, err := pgdump.ReadTuplesInRange(path, nil, incl)
+				if err != nil {
+					return "err"
+				}
+				return idpo(es)
+			}
 			v, d := pgdump.ReadRowsWithDeleted(b, cols)
 			return cRec(kv{"all", idpo(pgdump.ReadTuples(b, false))}, kv{"vis", idpo(pgdump.ReadTuples(b, true))},
 				kv{"parsefile", idpo(pgdump.ParseFile(b))},
 				kv{"rows_all", rowsC(pgdump.ReadRows(b, cols, false))}, kv{"rows_vis", rowsC(pgdump.ReadRows(b, cols, true))},
 				kv{"del", delC(pgdump.ReadDeletedRows(b, cols))}, kv{"del_noschema", delC(pgdump.ReadDeletedRows(b, nil))},
 				kv{"rwd_v", rowsC(v)}, kv{"rwd_d", rowsC(d)},
-				kv{"range_incl", rng(true)}, kv{"range_excl", rng(false)})
+				kv{"range_incl", rng(true)}, kv{"range_excl", rng(false)},
+				kv{"range_nil_incl", rngNil(true)}, kv{"range_nil_excl", rngNil(false)})
 		})
 	})
 	register("TupleClass", func(a []string) string {
